@@ -146,7 +146,7 @@ pub fn check_step(ctx: &mut Ctx, s: &Step) -> Result<(), Violation> {
     }
     // builder paths
     let lib_ep_file = observe(b).ep.map(file_of);
-    let bb: BoardBuilder = b.into();
+    let bb: BoardBuilder = if fp(p) % 2 == 0 { b.into() } else { (*b).into() };
     let btext = format!("{}", bb);
     if btext != text {
         ctx.fail("fen:builder-render", format!("BoardBuilder::from(&board) renders {:?}, board renders {:?}", btext, text), case())?;
